@@ -234,17 +234,39 @@ fn twin_case(ctx: &Ctx, tape: &[u8], rec: &Rec) -> Verdict {
     if twin.len() != f.r.src.len() {
         return Ok(());
     }
+    // variants: the first template of both files is a `template parallel`; the twin file ends with a
+    // main component instantiating one of its own templates (a run with exactly one main component is
+    // assembled by another code path; what is found in the other file must not depend on it)
+    let mut original = f.r.src.clone();
+    let first_template = f.ast.defs.iter().find(|d| !matches!(d.kind, crate::gen::ast::DefKind::Function));
+    if let Some(d) = first_template {
+        if t.chance(110) && matches!(d.kind, crate::gen::ast::DefKind::Template { custom: false, parallel: false }) {
+            let twin_name = d.name.replacen('0', "7", 1);
+            let a2 = original.replacen(&format!("template {}", d.name), &format!("template parallel {}", d.name), 1);
+            let b2 = twin.replacen(&format!("template {twin_name}"), &format!("template parallel {twin_name}"), 1);
+            if a2.len() == b2.len() && a2.len() != original.len() {
+                original = a2;
+                twin = b2;
+                rec.class("twin_pairs_with_a_parallel_template");
+            }
+        }
+        if t.chance(128) && f.ast.main.is_none() {
+            let twin_name = d.name.replacen('0', "7", 1);
+            twin.push_str(&format!("\ncomponent main = {twin_name}({});\n", vec!["2"; d.params.len()].join(", ")));
+            rec.class("twin_pairs_where_one_file_has_the_main_component");
+        }
+    }
     let dir = scratch(ctx, "c17t");
     let res = (|| -> Verdict {
         let a = dir.join("a.circom");
         let b = dir.join("b.circom");
-        std::fs::write(&a, &f.r.src).map_err(|e| Bad::new(format!("INFRA write: {e}")))?;
+        std::fs::write(&a, &original).map_err(|e| Bad::new(format!("INFRA write: {e}")))?;
         std::fs::write(&b, &twin).map_err(|e| Bad::new(format!("INFRA write: {e}")))?;
         let Some(oa) = observe(ctx, &[a.clone()], &dir)? else { return Ok(()) };
         let Some(ob) = observe(ctx, &[b.clone()], &dir)? else { return Ok(()) };
         rec.class("twin_file_pairs");
         if !oa.exact.is_empty() {
-            rec.nontrivial(fnv(f.r.src.as_bytes()));
+            rec.nontrivial(fnv(original.as_bytes()));
         }
         let mut want = oa.exact.clone();
         for (k, n) in &ob.exact {
@@ -275,7 +297,7 @@ fn twin_case(ctx: &Ctx, tape: &[u8], rec: &Rec) -> Verdict {
         }
         Ok(())
     })()
-    .map_err(|e| if e.rendered.is_empty() { e.rendered(format!("--- a.circom\n{}\n--- b.circom\n{twin}", f.r.src)) } else { e });
+    .map_err(|e| if e.rendered.is_empty() { e.rendered(format!("--- a.circom\n{original}\n--- b.circom\n{twin}")) } else { e });
     let _ = std::fs::remove_dir_all(&dir);
     res
 }
